@@ -1,3 +1,4 @@
+import Imdlv.Lemmas.HostIpv4
 import Imdlv.Model.HostPort
 /-!
 # C17 — host:port values survive every representation
@@ -175,6 +176,23 @@ theorem concrete_show_shapes (segs : List Nat) :
   simp only [hostShowUrl]
   rw [List.getLast?_append]
   simp
+
+/-! ## IPv4 hosts, end to end through the model's concrete parser and printers -/
+
+/-- **Every IPv4 address and port survive `HOST:PORT`**: printed as dotted decimal, parsed back by
+the WHATWG host parser of the model (which also knows hexadecimal, octal and short forms) to the
+identical value -/
+theorem ipv4_display_parse (n p : Nat) (hn : n < 2 ^ 32) (hp : p < 65536) :
+    parse hostParseOpt (display hostShowUrl (.ipv4 n, p)) = .ok (.ipv4 n, p) :=
+  display_parse hostParseOpt hostShowUrl (.ipv4 n) p hp (hostParseC_showIpv4 n hn) (showIpv4_clean n).1
+
+/-- … and the stored `[host, port]` pair -/
+theorem ipv4_bencode_roundtrip (n p : Nat) (hn : n < 2 ^ 32) :
+    ofPair hostParseOpt (toPair hostShowPair (.ipv4 n, p)) = some (.ipv4 n, p) := by
+  apply bencode_roundtrip
+  have : (hostShowPair (.ipv4 n)).contains ':' = false := (showIpv4_clean n).2
+  rw [this]
+  exact hostParseC_showIpv4 n hn
 
 /-! ## Non-vacuity: concrete instances through the model's own host parser -/
 example : parse hostParseOpt "imdl.com:12".toList = .ok (.domain "imdl.com".toList, 12) := by decide +kernel
